@@ -97,9 +97,9 @@ package keeper
 //@   let rs = k.lend.GetAssetRatesParams(ctx, pair.AssetIn).0
 //@   let thr = ite(pair.IsEModeEnabled, rs.ELiquidationThreshold, rs.LiquidationThreshold)
 //@   requires #borrow-keyed: bf0 ==> b0.ID == borrowID
-//@   requires #same-pool-borrow: b0.BridgedAssetAmount.Amount == 0
 //@   letpost b1 = k.lend.GetBorrow(ctx, borrowID).0
-//@   ensures [C09] #c09-borrow-only-unsafe: result == nil && bf0 && !b0.IsLiquidated && b1.IsLiquidated ==> K("lend").CalculateCollateralizationRatio(ctx, b1.AmountIn.Amount, ain, b1.AmountOut.Amount + trunc(b1.InterestAccumulated), aout).1 == nil && K("lend").CalculateCollateralizationRatio(ctx, b1.AmountIn.Amount, ain, b1.AmountOut.Amount + trunc(b1.InterestAccumulated), aout).0 > thr
+//@   ensures [C09] #c09-borrow-only-unsafe: result == nil && bf0 && !b0.IsLiquidated && b1.IsLiquidated && b0.BridgedAssetAmount.Amount == 0 ==> K("lend").CalculateCollateralizationRatio(ctx, b1.AmountIn.Amount, ain, b1.AmountOut.Amount + trunc(b1.InterestAccumulated), aout).1 == nil && K("lend").CalculateCollateralizationRatio(ctx, b1.AmountIn.Amount, ain, b1.AmountOut.Amount + trunc(b1.InterestAccumulated), aout).0 > thr
+//@   ensures [C09] #c09-bridged-borrow-priced: result == nil && bf0 && !b0.IsLiquidated && b1.IsLiquidated && b0.BridgedAssetAmount.Amount != 0 ==> K("lend").CalculateCollateralizationRatio(ctx, b1.AmountIn.Amount, ain, b1.AmountOut.Amount + trunc(b1.InterestAccumulated), aout).1 == nil
 //@   fails_if [C14] #c14-breaker: bf0 && !b0.IsLiquidated && k.lend.GetLend(ctx, b0.LendingID).1 && k.esm.GetKillSwitchData(ctx, l0.AppID).0.BreakerEnable
 
 // Handing a seized borrow to the auction (C08): the borrowed principal leaves the published total it was counted in - the
